@@ -113,6 +113,20 @@ let run_decode packed maxv chunks ops stream =
   end;
   String.concat " " (List.rev !outs)
 
+(* decodex: the plain Decoder over a reader with the given behaviour: t = the final error comes
+   together with the last bytes, e = the final error is not io.EOF; chunk size 0 = a (0, nil) read *)
+let run_decodex beh maxv chunks ops stream =
+  let tog = String.contains beh 't' and e = String.contains beh 'e' in
+  let st = ref (d_init { x_chunks = chunk_stream chunks stream; x_final = (if e then UnexpectedEOF else EOF); x_tog = tog } maxv) in
+  let outs = ref [] in
+  List.iter (fun o ->
+    let (st', r) = xdstep !seglimit_fixed !st o in
+    st := st';
+    match r with
+    | Some x -> outs := show_decode st' x st'.d_max :: !outs
+    | None -> ()) ops;
+  String.concat " " (List.rev !outs)
+
 let show_bytes = function Ok b -> "ok " ^ render b | Err e -> "err " ^ cls e | Panic -> "panic"
 
 let () =
@@ -141,6 +155,9 @@ let () =
     print_endline (show_bytes (if p = "1" then encode_packed !aligned segs else encode !aligned segs))
   | "decode" :: p :: m :: c :: ops :: b :: _ ->
     print_endline (run_decode (p = "1") (z_of_num m) (List.map int_of_string (String.split_on_char ',' c))
+                     (parse_ops ops) (bytes_of_expr b))
+  | "decodex" :: beh :: m :: c :: ops :: b :: _ ->
+    print_endline (run_decodex beh (z_of_num m) (List.map int_of_string (String.split_on_char ',' c))
                      (parse_ops ops) (bytes_of_expr b))
   | "hdrsize" :: n :: _ -> print_endline (zstr (stream_header_size (z_of_num n)))
   | "segsize" :: b :: i :: _ ->
